@@ -435,3 +435,41 @@ def params_of_type(F, body, pred):
     """slots of the enclosing top-level fn whose declared type satisfies pred(type string)"""
     tb = F.body(body.path.split('::{')[0])
     return [i for i in range(1, (tb.argc if tb else 0) + 1) if pred(tb.local_ty(i))]
+
+
+def _strip_ty(ty):
+    ty = (ty or '').strip()
+    while ty.startswith('&'):
+        ty = ty[1:].strip()
+        if ty.startswith("'"):
+            ty = ty.split(' ', 1)[1] if ' ' in ty else ty
+        if ty.startswith('mut '):
+            ty = ty[4:].strip()
+    return ty
+
+
+def origin_value_type(F, body, o):
+    """type of the value an origin denotes when it is a parameter or a field (of a field ...) of a struct parameter"""
+    if o.kind != 'param':
+        return None
+    ty = _strip_ty(body.local_ty(o.key))
+    for f in o.path:
+        base = ty.split('<')[0]
+        if base == 'std::option::Option' and f == '0':
+            ty = _strip_ty(ty[ty.index('<') + 1:ty.rindex('>')])
+            continue
+        adt = F.adts.get(base)
+        if not adt or not adt.get('variants'):
+            return None
+        fld = next((x for x in adt['variants'][0]['fields'] if x['name'] == f), None)
+        if fld is None:
+            return None
+        ty = _strip_ty(fld['ty'])
+    return ty
+
+
+def request_value(F, body, os_, ty):
+    """every origin is a parameter - or a field of a struct parameter (grouped request header) - of type `ty`"""
+    os_ = [o for o in os_ if o.kind != 'comb']
+    want = ty.replace(' ', '')
+    return bool(os_) and all(o.kind == 'param' and (origin_value_type(F, body, o) or '').replace(' ', '') == want for o in os_)
